@@ -6,9 +6,10 @@
 (* The hooks (`--cfg rsactor_verif`, active when RSACTOR_VERIF_TRACE names  *)
 (* a file) log one line per lifecycle event of every actor of every test:   *)
 (*   Spawn(cap) StartEnter StartExit(0 ok | 1 err) HandlerEnter HandlerExit  *)
-(*   RunEnd(0 Ok(true) | 1 Ok(false) | 2 Err) StopEnter(0 false | 1 true |   *)
-(*   2 flag not known at the hook) StopExit(0|1) <Hook>Unwind (the hook       *)
-(*   panicked) KillStart KillDone Result(kind*10+phase, killed)              *)
+(*   RunEnter RunEnd(0 Ok(true) | 1 Ok(false) | 2 Err) StopEnter(0 false |   *)
+(*   1 true | 2 flag not known at the hook) StopExit(0|1) <Hook>Unwind (the   *)
+(*   hook panicked) <Hook>Drop (its future was dropped unfinished) KillStart  *)
+(*   KillDone Result(kind*10+phase, killed)                                  *)
 (* numbered by a process-wide ticket taken under the lock that orders the    *)
 (* writes.  The per-actor state machine below is the lifecycle of            *)
 (* RsActor.tla (pc = Init/Start/Handler/Run/Stop/Done) seen through those    *)
@@ -64,6 +65,20 @@ Step(A, ev) ==
                 \cup B(A.killDone /\ A.afterKill >= 1, "C06", "more than one handler started after kill() returned")]
     [] e = "HandlerExit" -> [a |-> [A EXCEPT !.inHandler = FALSE], b |-> {}]
     [] e = "HandlerUnwind" -> [a |-> [A EXCEPT !.inHandler = FALSE, !.unwound = TRUE], b |-> {}]
+    [] e = "RunEnter" ->          \* first poll of a new on_run invocation
+         [a |-> A,
+          b |-> B(A.startExit # 0, "C04", "on_run started before on_start had returned Ok")
+                \cup B(A.stopN > 0, "C04", "on_run started after on_stop had begun")
+                \cup B(A.inHandler, "C08", "on_run started while a handler was running")
+                \cup B(A.runDisabled, "C08", "on_run started again after it had returned Ok(false)")
+                \cup B(A.runErr, "C08", "on_run started again after it had returned Err")
+                \cup B(A.unwound, "C12", "on_run started after a hook of this actor had panicked")
+                \cup B(A.result >= 0, "C04", "on_run started after the actor had ended")]
+    [] e = "RunDrop" -> [a |-> A, b |-> {}]          \* another select branch won
+    [] e = "RunUnwind" -> [a |-> [A EXCEPT !.unwound = TRUE], b |-> {}]
+    [] e = "HandlerDrop" -> [a |-> [A EXCEPT !.inHandler = FALSE], b |-> {}]
+    [] e = "StopDrop" -> [a |-> A, b |-> B(TRUE, "C04", "an on_stop in progress was abandoned")]
+    [] e = "StartDrop" -> [a |-> A, b |-> {}]
     [] e = "RunEnd" ->
          [a |-> [A EXCEPT !.runOk = (@ \/ x = 0), !.runDisabled = (@ \/ x = 1), !.runErr = (@ \/ x = 2)],
           b |-> B(A.startExit # 0, "C04", "on_run completed before on_start had returned Ok")
